@@ -169,38 +169,133 @@ def judge(e, sites):
 
 
 def case_strategy():
-    # Object sizes in KiB so that boundaries are reachable; a few big ones make the total exceed 128 MiB.
+    # A few big objects make the total exceed 128 MiB; most objects are small or medium, as in real links.
     big = st.sampled_from([20, 40, 64, 100, 126, 127]).map(lambda m: m * MIB)
-    mid = st.integers(1, 9).map(lambda m: m * MIB)
+    mid = st.one_of(st.integers(4, 31).map(lambda k: k * 64 * 1024), st.integers(4, 31).map(lambda k: k * 64 * 1024),
+                    st.integers(2, 9).map(lambda m: m * MIB))
     small = st.integers(1, 64).map(lambda k: k * 1024)
     obj = st.fixed_dictionaries({
-        "size": st.one_of(big, big, mid, small),
+        "size": st.one_of(big, mid, mid, small, small),
         "jitter": st.integers(0, 255).map(lambda j: j * 4),
         "nfuncs": st.integers(1, 3),
-        # sites: (position class, kind, target object selector, target function selector)
+        # sites: (position class, kind, target object selector, target function selector, far)
+        # far = aim at the first or last object in link order, whichever is farther away
         "sites": st.lists(st.tuples(st.sampled_from(["start", "end", "mid", "q1", "q3"]), st.sampled_from(["bl", "b"]),
-                                    st.integers(0, 255), st.integers(0, 255)), min_size=1, max_size=4),
+                                    st.integers(0, 255), st.integers(0, 255), st.booleans()), min_size=1, max_size=5),
     })
     return st.fixed_dictionaries({
-        "objects": st.lists(obj, min_size=3, max_size=7),
+        "objects": st.lists(obj, min_size=4, max_size=8),
         "gc": st.booleans(),
-        "order": st.integers(0, 5039),
+        "order": st.integers(0, 40319),
+        # 1 or 2 extra big objects so that the text exceeds the branch range
+        "bigs": st.lists(st.sampled_from([64, 100, 110, 120, 126]), min_size=1, max_size=2),
+        # fan-out: N call sites in the first object to N distinct functions of the last one: N thunks in one
+        # block, 12 bytes apart, so that every 4-aligned page offset (incl. the last word of a page) is hit
+        "fan": st.sampled_from([0, 0, 1100, 1400]),
     })
 
 
 def normalise(case):
-    """Makes the total executable size 130..420 MiB by scaling the largest object."""
+    """Adds the extra big objects (no sites of their own beyond one) and keeps the total executable size
+    within 150..420 MiB."""
     objs = [dict(o) for o in case["objects"]]
+    for m in case.get("bigs", []):
+        objs.append({"size": m * MIB, "jitter": 0, "nfuncs": 2, "sites": [("mid", "bl", 0, 0, True)]})
     total = sum(o["size"] for o in objs)
-    if total < 130 * MIB:
+    if total < 150 * MIB:
         k = max(range(len(objs)), key=lambda i: objs[i]["size"])
-        objs[k]["size"] += 130 * MIB - total + 4 * MIB
+        objs[k]["size"] += 150 * MIB - total
     while sum(o["size"] for o in objs) > 420 * MIB:
         k = max(range(len(objs)), key=lambda i: objs[i]["size"])
         objs[k]["size"] //= 2
     for o in objs:
         o["size"] = (o["size"] + o["jitter"]) & ~3
     return objs
+
+
+def build_plan(case):
+    """Deterministic construction shared by run_case and the known-finding domain.
+    Returns (objects, link order, per object (words, symbols, relocs), sites) with
+    sites = [(site symbol, kind, target symbol, site object, target object, site offset, target offset)]."""
+    objs = normalise(case)
+    fan = case.get("fan", 0)
+    perm = link_order(case, len(objs))
+    if fan:
+        # caller first, callee last in link order
+        objs.append({"size": 64 * 1024 + 4 * fan, "jitter": 0, "nfuncs": 1, "sites": [], "fan": "caller"})
+        objs.append({"size": 64 * 1024 + 4 * fan, "jitter": 0, "nfuncs": 1, "sites": [], "fan": "callee"})
+        perm = [len(objs) - 2] + perm + [len(objs) - 1]
+    n = len(objs)
+    funcs = []   # (object index, name, offset)
+    for i, o in enumerate(objs):
+        for k in range(o["nfuncs"]):
+            off = (o["size"] // (o["nfuncs"] + 1) * (k + 1)) & ~3 if k else 0
+            funcs.append((i, f"fn_{i}_{k}", off))
+    sites = []
+    plan = []
+    for i, o in enumerate(objs):
+        words, symbols, relocs = {}, [], []
+        for (oi, name, off) in funcs:
+            if oi == i:
+                words[off] = RET
+                symbols.append((name, off))
+        used = set(words)
+        undefined = set()
+        for j, site in enumerate(o["sites"]):
+            pos, kind, tsel, fsel = site[:4]
+            far = len(site) > 4 and site[4]
+            base = {"start": 8, "end": o["size"] - 8, "mid": o["size"] // 2, "q1": o["size"] // 4, "q3": o["size"] // 4 * 3}[pos]
+            off = max(4, min(o["size"] - 4, base & ~3))
+            while off in used:
+                off += 4
+            if off >= o["size"]:
+                continue
+            used.add(off)
+            tobj = (tsel * n) >> 8
+            if far:
+                here = perm.index(i)
+                tobj = perm[0] if here >= n - 1 - here else perm[-1]
+            cands = [f for f in funcs if f[0] == tobj] or funcs
+            tgt = cands[(fsel * len(cands)) >> 8]
+            words[off] = BL if kind == "bl" else B
+            sname = f"site_{i}_{j}"
+            symbols.append((sname, off))
+            if tgt[0] != i:
+                undefined.add(tgt[1])
+            relocs.append((off, R_CALL26 if kind == "bl" else R_JUMP26, tgt[1], 0))
+            sites.append((sname, kind, tgt[1], i, tgt[0], off, tgt[2]))
+        if o.get("fan") == "callee":
+            for k in range(fan):
+                off = 1024 + 4 * k
+                words[off] = RET
+                symbols.append((f"fan_{k}", off))
+        if o.get("fan") == "caller":
+            for k in range(fan):
+                off = 1024 + 4 * k
+                words[off] = BL
+                symbols.append((f"fsite_{k}", off))
+                undefined.add(f"fan_{k}")
+                relocs.append((off, R_CALL26, f"fan_{k}", 0))
+                sites.append((f"fsite_{k}", "bl", f"fan_{k}", i, n - 1, off, 1024 + 4 * k))
+        if i == 0:
+            # _start keeps every object alive under --gc-sections: one `bl` to the first function of each.
+            off = (o["size"] - 4 * (n + 2)) & ~3
+            while any(x in used for x in range(off, off + 4 * (n + 1), 4)):
+                off -= 4 * (n + 2)
+            symbols.append(("_start", off))
+            for k in range(n):
+                words[off + 4 * k] = BL
+                tname = f"fn_{k}_0"
+                if k != 0:
+                    undefined.add(tname)
+                relocs.append((off + 4 * k, R_CALL26, tname, 0))
+                symbols.append((f"site_s_{k}", off + 4 * k))
+                sites.append((f"site_s_{k}", "bl", tname, 0, k, off + 4 * k, 0))
+            words[off + 4 * n] = RET
+        for u in sorted(undefined):
+            symbols.append((u, None))
+        plan.append((words, symbols, relocs))
+    return objs, perm, plan, sites
 
 
 def link_order(case, n):
@@ -247,20 +342,24 @@ def known_domain(case):
     """Known finding `link-fails:branch-out-of-range`: the object that ends up owning a thunk block is
     larger than the slack (2 MiB) the scheme reserves, so the first objects of that block's group lie
     more than 128 MiB before the block.  Exact domain: per the documented scheme with R = 126 MiB some
-    object has a byte farther than 2^27 - 64 KiB from its block's position."""
+    generated call site is farther than 2^27 - 64 KiB both from its target and from its block's position."""
     global _KNOWN
     if _KNOWN is None:
         _KNOWN = {e["signature"] for e in core.load_known("C11") if e["status"] == "known"}
     if "inproc" in case or "link-fails:branch-out-of-range" not in _KNOWN:
         return None
-    objs = normalise(case)
-    perm = link_order(case, len(objs))
+    objs, perm, _, sites = build_plan(case)
     sizes = [objs[i]["size"] for i in perm]
     asg, start, end = placement_model(sizes, 126 * MIB)
-    for i, (_, ow) in enumerate(asg):
-        pos = end[ow]
-        reach = pos - start[i] if i < ow else end[i] - pos if i > ow else 0
-        if reach >= (1 << 27) - 64 * 1024:
+    where = {obj: k for k, obj in enumerate(perm)}
+    lim = (1 << 27) - 64 * 1024
+    for (_, _, _, so, to, soff, toff) in sites:
+        k = where[so]
+        ow = asg[k][1]
+        site_addr = start[k] + soff
+        target_addr = start[where[to]] + toff
+        # the branch needs a thunk and its block (at the owner's end) is out of reach
+        if abs(target_addr - site_addr) >= lim and abs(end[ow] - site_addr) >= lim:
             return "link-fails:branch-out-of-range"
     return None
 
@@ -274,7 +373,7 @@ class C11(Check):
     technique = ("generated sparse AArch64 objects (130-420 MiB of .text) linked by wild and lld; every labelled bl/b is "
                  "decoded with an independent decoder and followed through range-extension thunks to the resolved symbol; "
                  "in-process proptest tier on the thunk-block placement kernel against invariants of the documented scheme")
-    rule = ("case = 3-7 objects with .text sizes from {KiB, MiB, 20-127 MiB} (+ a 4-byte-multiple jitter), 1-3 functions "
+    rule = ("case = 5-10 objects with .text sizes from {KiB, MiB, 20-127 MiB} (+ a 4-byte-multiple jitter), 1-3 functions "
             "each, 1-4 call sites each at start/end/middle/quarters of the object, kind bl or b, target = any function of "
             "any object (near/far, forward/backward), object order permuted, --gc-sections on/off (all objects reachable); "
             "non-trivial = at least one site needs a thunk (direct distance >= 2^27) and at least one is direct in wild's "
@@ -292,63 +391,10 @@ class C11(Check):
         if "inproc" in case:
             return replay_inproc(self, "c11", case["inproc"])
         d = ctx.dir
-        objs = normalise(case)
+        objs, perm, plan, sites = build_plan(case)
         n = len(objs)
-        funcs = []   # (object index, name, offset)
-        for i, o in enumerate(objs):
-            for k in range(o["nfuncs"]):
-                off = (o["size"] // (o["nfuncs"] + 1) * (k + 1)) & ~3 if k else 0
-                funcs.append((i, f"fn_{i}_{k}", off))
-        sites = []
-        paths = []
-        for i, o in enumerate(objs):
-            words, symbols, relocs = {}, [], []
-            for (oi, name, off) in funcs:
-                if oi == i:
-                    words[off] = RET
-                    symbols.append((name, off))
-            used = set(words)
-            undefined = set()
-            for j, (pos, kind, tsel, fsel) in enumerate(o["sites"]):
-                base = {"start": 8, "end": o["size"] - 8, "mid": o["size"] // 2, "q1": o["size"] // 4, "q3": o["size"] // 4 * 3}[pos]
-                off = max(4, min(o["size"] - 4, base & ~3))
-                while off in used:
-                    off += 4
-                if off >= o["size"]:
-                    continue
-                used.add(off)
-                tgt = funcs[(tsel * len(funcs)) >> 8]
-                # pick by both selectors so that every function can be hit
-                cands = [f for f in funcs if f[0] == (tsel * n) >> 8] or funcs
-                tgt = cands[(fsel * len(cands)) >> 8]
-                words[off] = BL if kind == "bl" else B
-                sname = f"site_{i}_{j}"
-                symbols.append((sname, off))
-                if tgt[0] != i:
-                    undefined.add(tgt[1])
-                relocs.append((off, R_CALL26 if kind == "bl" else R_JUMP26, tgt[1], 0))
-                sites.append((sname, kind, tgt[1], i, tgt[0]))
-            if i == 0:
-                # _start keeps every object alive under --gc-sections: one `bl` to the first function of each.
-                off = o["size"] - 4 * (n + 2)
-                off &= ~3
-                while any(x in used for x in range(off, off + 4 * (n + 1), 4)):
-                    off -= 4 * (n + 2)
-                symbols.append(("_start", off))
-                for k in range(n):
-                    words[off + 4 * k] = BL
-                    tname = f"fn_{k}_0"
-                    if k != 0:
-                        undefined.add(tname)
-                    relocs.append((off + 4 * k, R_CALL26, tname, 0))
-                    symbols.append((f"site_s_{k}", off + 4 * k))
-                    sites.append((f"site_s_{k}", "bl", tname, 0, k))
-                words[off + 4 * n] = RET
-            for u in sorted(undefined):
-                symbols.append((u, None))
-            paths.append(write_object(f"{d}/o{i}.o", o["size"], words, symbols, relocs))
+        paths = [write_object(f"{d}/o{i}.o", objs[i]["size"], *plan[i]) for i in range(n)]
         # link order: object 0 (with _start) anywhere
-        perm = link_order(case, n)
         args = ["-m", "aarch64linux", "-o", None] + (["--gc-sections"] if case["gc"] else ["--no-gc-sections"]) + \
                [f"o{i}.o" for i in perm]
         res = {}
@@ -359,7 +405,7 @@ class C11(Check):
             if r.timed_out:
                 raise Inconclusive(f"{L} timed out")
             res[L] = r
-        site_list = [(s, k, t) for (s, k, t, _, _) in sites]
+        site_list = [(x[0], x[1], x[2]) for x in sites]
         if res["lld"].rc != 0:
             raise Discard("lld rejects the case: " + res["lld"].err.strip()[-80:])
         le, lm, lf = open_elf(f"{d}/lld.out")
@@ -397,9 +443,9 @@ class C11(Check):
 
         def szc(s):
             return "K" if s < MIB else "M" if s < 16 * MIB else "H"
-        key = "".join(szc(objs[i]["size"]) for i in perm) + "|" + ",".join(f"{s[1]}{s[3]}>{s[4]}" for s in sites)
+        key = "".join(szc(objs[i]["size"]) for i in perm) + "|" + ",".join(f"{s[1]}{s[3]}>{s[4]}" for s in sites if not s[0].startswith("fsite_"))
         return {"nontrivial": thunk >= 1 and direct >= 1, "key": key,
-                "classes": [f"objects_{n}", f"thunks_{min(thunk, 6) // 2 * 2}+", "gc" if case["gc"] else "nogc",
+                "classes": [f"objects_{n}", f"thunks_{min(thunk, 6) // 2 * 2}+", "gc" if case["gc"] else "nogc", "fan" if case.get("fan") else "nofan",
                             f"total_{sum(o['size'] for o in objs) // (64 * MIB) * 64}MiB+"],
                 "counters": {"sites": len(sites), "thunked": thunk, "direct": direct, "lld_thunked": lthunk}}
 
